@@ -1,0 +1,17 @@
+//go:build verif
+
+package hash
+
+// Machine-checked contracts for the hashers (comment-only; compiled only with -tags verif).
+
+//@ props C01 C02 C14
+
+// Closed-world contract of the Hasher interface: the two implementations in this package.
+//@ iface Hasher.Hash
+//@ requires typeIs(self, hash.AlwaysRun) || typeIs(self, hash.Concurrent)
+//@ ensures typeIs(self, hash.AlwaysRun) ==> result == "DIFFERENT" && err == nil
+//@ ensures typeIs(self, hash.Concurrent) && err == nil ==> result == DG(fsid, files)
+//@ ensures typeIs(self, hash.Concurrent) && ioOK ==> err == nil
+
+//@ func (AlwaysRun).Hash
+//@ ensures result0 == "DIFFERENT" && result1 == nil
